@@ -359,27 +359,32 @@ def check_segments(desc, length, pad, padname, incl, res, styles=None):
                 res.violate("split_lines/content", dict(case, fn="split_lines"), "line %r reference %r" % (g, r))
                 break
 
-    # split_and_crop_lines
-    got = [list(l) for l in Segment.split_and_crop_lines(list(segs), length, style=padstyle, pad=pad,
-                                                          include_new_lines=incl)]
-    res.evaluations += 1
-    if len(got) != len(ref_lines):
-        res.violate("split_and_crop_lines/line-count", dict(case, fn="split_and_crop_lines"),
-                    "got %d lines, reference %d: %r" % (len(got), len(ref_lines), got))
-    else:
+    # split_and_crop_lines -- judged twice: lines copied as they are produced (a streaming consumer such as
+    # Console.print) and all lines collected first (Console.render_lines does list(...)): a line that is
+    # still the generator's work buffer looks right while streaming and wrong once collected
+    for mode in ("streamed", "collected"):
+        gen = Segment.split_and_crop_lines(list(segs), length, style=padstyle, pad=pad, include_new_lines=incl)
+        got = [list(l) for l in gen] if mode == "streamed" else [list(l) for l in list(gen)]
+        res.evaluations += 1
+        sfx = "" if mode == "streamed" else "/collected"
+        kcase = dict(case, fn="split_and_crop_lines", mode=mode)
+        if len(got) != len(ref_lines):
+            res.violate("split_and_crop_lines/line-count" + sfx, kcase,
+                        "got %d lines, reference %d: %r" % (len(got), len(ref_lines), got))
+            continue
         for gl, rl, nl in zip(got, ref_lines, flags):
             g = _flatten_real(gl)
             if incl and nl:
                 if not g or g[-1][0] != "\n" or g[-1][2]:
-                    res.violate("split_and_crop_lines/newline-missing", dict(case, fn="split_and_crop_lines"), repr(gl))
+                    res.violate("split_and_crop_lines/newline-missing" + sfx, kcase, repr(got))
                     break
                 g = g[:-1]
             if any(c == "\n" and not ctl for c, _, ctl in g):
-                res.violate("split_and_crop_lines/stray-newline", dict(case, fn="split_and_crop_lines"), repr(gl))
+                res.violate("split_and_crop_lines/stray-newline" + sfx, kcase, repr(got))
                 break
             err = _judge_line(rl, g, length, pad, padstyle, styles)
             if err:
-                res.violate("split_and_crop_lines/" + err[0], dict(case, fn="split_and_crop_lines"), err[1])
+                res.violate("split_and_crop_lines/" + err[0] + sfx, kcase, err[1])
                 break
     cropped = any(sum(cw(c) for c, _, ctl in rl if not ctl) > length for rl in ref_lines)
     short = any(sum(cw(c) for c, _, ctl in rl if not ctl) < length for rl in ref_lines)
